@@ -15,7 +15,16 @@ case "${1:-}" in
     mkdir -p "$HERE/bin" "$HERE/evidence"
     build
     cd "$HERE"
-    VERIF_ROOT="$HERE" exec "$HERE/bin/kverif" check "$2" --tier "${3:-${VERIF_TIER:-quick}}"
+    VERIF_ROOT="$HERE" "$HERE/bin/kverif" check "$2" --tier "${3:-${VERIF_TIER:-quick}}"
+    rc=$?
+    if [ $rc -gt 1 ]; then
+      # the analysis itself did not complete (load/type error, crash): undecided counts as failed, never as held
+      mkdir -p "$HERE/evidence/replay"
+      echo "{\"finding\": {\"property\": \"$2\", \"rule\": \"$2.0\", \"construct\": \"checker\", \"msg\": \"UNDECIDED: kverif exited with status $rc before reaching a verdict\"}}" > "$HERE/evidence/replay/$2-crash.json"
+      echo "VIOLATION property=$2 replay=$HERE/evidence/replay/$2-crash.json"
+      exit 1
+    fi
+    exit $rc
     ;;
   *) VERIF_ROOT="$HERE" exec "$HERE/bin/kverif" "$@" ;;
 esac
